@@ -210,6 +210,7 @@ func AnalyzeFunction(fn *ssa.Function, l *config.LogGroup) Results {
 	// With the change tracking and preorder, we might be able to get away with a fixed iteration count,
 	// but this limit ensures that no matter what order we do it in, we'll converge if it is bounded.
 	var anyRepeated = false
+	verifhook.At("defers.AnalyzeFunction.enter")
 	for {
 		verifhook.At("defers.AnalyzeFunction.step")
 		var iterationChanged = false
